@@ -478,4 +478,142 @@ theorem encode_convertSplit (t : TypeId) (v : J) (e : Exp) (h : convertSplit t v
     obtain ⟨e0, h0, rfl⟩ := h
     rw [encode_fix, encode_ofJ _ e0 h0]
 
+
+theorem isSplitKey_splitKey : isSplitKey splitKey = true := by decide
+
+
+/-! ### value semantics: the printers change the syntax class of a number, never its value -/
+
+theorem Flt.val_of_integral (f : Flt) (h : f.m = 0 ∨ 0 ≤ f.e) : f.val = (f.intVal, 0) := by
+  unfold Flt.val
+  by_cases hm : f.m = 0
+  · simp only [hm, ↓reduceIte, Flt.intVal, Nat.zero_mul]
+    cases f.neg <;> simp
+  · rcases h with h | h
+    · exact absurd h hm
+    · simp [hm, h]
+
+theorem val_encLit (l : Lit) : (encLit l).val = l.val := by
+  cases l with
+  | flt f =>
+    by_cases h : f.jsonAsInt = true
+    · simp only [encLit, h, ↓reduceIte, Lit.val]
+      simp only [Flt.jsonAsInt, Bool.or_eq_true, beq_iff_eq, Bool.and_eq_true, decide_eq_true_eq] at h
+      rw [Flt.val_of_integral f (h.imp id (fun hh => hh.1))]
+    · simp [encLit, h]
+  | _ => rfl
+
+theorem val_textLit (l : Lit) : (textLit l).val = l.val := by
+  cases l with
+  | flt f =>
+    by_cases h : f.textAsInt = true
+    · simp only [textLit, h, ↓reduceIte, Lit.val]
+      simp only [Flt.textAsInt, Bool.or_eq_true, beq_iff_eq, Bool.and_eq_true, decide_eq_true_eq] at h
+      rw [Flt.val_of_integral f (h.imp id (fun hh => hh.1))]
+    · simp [textLit, h]
+  | _ => rfl
+
+
+/-! ### a JSON value of the declared type converts to a well-typed literal -/
+
+mutual
+theorem plainMaps_ofJ : ∀ (j : J) (e : Exp), ofJ j = some e → plainMaps e = true
+  | .lit l, e, h => by
+    simp only [ofJ] at h
+    split at h
+    · injection h with h; subst h; rfl
+    · cases h
+  | .arr xs, e, h => by
+    simp only [ofJ, Option.map_eq_some_iff] at h
+    obtain ⟨es, hes, rfl⟩ := h
+    simp [plainMaps, plainMapsList_ofJList xs es hes]
+  | .obj kvs, e, h => by
+    simp only [ofJ, Option.map_eq_some_iff] at h
+    obtain ⟨es, hes, rfl⟩ := h
+    simp [plainMaps, plainMapsKvs_ofJKvs kvs es hes]
+theorem plainMapsList_ofJList : ∀ (xs : JList) (es : EList), ofJList xs = some es → plainMapsList es = true
+  | .nil, es, h => by simp only [ofJList, Option.some.injEq] at h; subst h; rfl
+  | .cons j r, es, h => by
+    simp only [ofJList] at h
+    split at h
+    · rename_i e es' h1 h2
+      injection h with h; subst h
+      simp [plainMapsList, plainMaps_ofJ j e h1, plainMapsList_ofJList r es' h2]
+    · cases h
+theorem plainMapsKvs_ofJKvs : ∀ (kvs : JKvs) (es : EKvs), ofJKvs kvs = some es → plainMapsKvs es = true
+  | .nil, es, h => by simp only [ofJKvs, Option.some.injEq] at h; subst h; rfl
+  | .cons k j r, es, h => by
+    simp only [ofJKvs] at h
+    split at h
+    · rename_i e es' h1 h2
+      injection h with h; subst h
+      simp [plainMapsKvs, plainMaps_ofJ j e h1, plainMapsKvs_ofJKvs r es' h2]
+    · cases h
+end
+
+mutual
+theorem wt_fix_ofJ : ∀ (j : J) (e : Exp) (b : Base) (ad md : Nat), ofJ j = some e → jWt b ad md j = true →
+    wt b ad md (fix b ad md e) = true
+  | .lit l, e, b, ad, md, h, hw => by
+    simp only [ofJ] at h
+    split at h
+    · injection h with h; subst h
+      simpa [fix, wt, jWt] using hw
+    · cases h
+  | .arr xs, e, b, ad, md, h, hw => by
+    simp only [ofJ, Option.map_eq_some_iff] at h
+    obtain ⟨es, hes, rfl⟩ := h
+    simp only [jWt, Bool.and_eq_true, decide_eq_true_eq] at hw
+    simp [fix, wt, hw.1, wtList_fix_ofJList xs es b (ad - 1) md hes hw.2]
+  | .obj kvs, e, b, ad, md, h, hw => by
+    simp only [ofJ, Option.map_eq_some_iff] at h
+    obtain ⟨es, hes, rfl⟩ := h
+    simp only [jWt, Bool.and_eq_true] at hw
+    obtain ⟨had, hw⟩ := hw
+    cases hm : mapAction b ad md with
+    | vals b' ad' md' =>
+      simp only [hm] at hw
+      simp [fix, wt, hm, had, wtVals_fix_ofJKvs kvs es b' ad' md' hes hw]
+    | fields fs =>
+      simp only [hm] at hw
+      simp [fix, wt, hm, had, wtFields_fix_ofJKvs kvs es fs hes hw]
+    | markStruct => simp [hm] at hw
+    | keep =>
+      simp only [hm] at hw
+      simp [fix, wt, hm, had, hw, plainMapsKvs_ofJKvs kvs es hes]
+theorem wtList_fix_ofJList : ∀ (xs : JList) (es : EList) (b : Base) (ad md : Nat), ofJList xs = some es →
+    jWtList b ad md xs = true → wtList b ad md (fixList b ad md es) = true
+  | .nil, es, _, _, _, h, _ => by simp only [ofJList, Option.some.injEq] at h; subst h; rfl
+  | .cons j r, es, b, ad, md, h, hw => by
+    simp only [ofJList] at h
+    split at h
+    · rename_i e es' h1 h2
+      injection h with h; subst h
+      simp only [jWtList, Bool.and_eq_true] at hw
+      simp [fixList, wtList, wt_fix_ofJ j e b ad md h1 hw.1, wtList_fix_ofJList r es' b ad md h2 hw.2]
+    · cases h
+theorem wtVals_fix_ofJKvs : ∀ (kvs : JKvs) (es : EKvs) (b : Base) (ad md : Nat), ofJKvs kvs = some es →
+    jWtVals b ad md kvs = true → wtVals b ad md (fixVals b ad md es) = true
+  | .nil, es, _, _, _, h, _ => by simp only [ofJKvs, Option.some.injEq] at h; subst h; rfl
+  | .cons k j r, es, b, ad, md, h, hw => by
+    simp only [ofJKvs] at h
+    split at h
+    · rename_i e es' h1 h2
+      injection h with h; subst h
+      simp only [jWtVals, Bool.and_eq_true] at hw
+      simp [fixVals, wtVals, wt_fix_ofJ j e b ad md h1 hw.1, wtVals_fix_ofJKvs r es' b ad md h2 hw.2]
+    · cases h
+theorem wtFields_fix_ofJKvs : ∀ (kvs : JKvs) (es : EKvs) (fs : Fields), ofJKvs kvs = some es →
+    jWtFields fs kvs = true → wtFields fs (fixFields fs es) = true
+  | .nil, es, _, h, _ => by simp only [ofJKvs, Option.some.injEq] at h; subst h; rfl
+  | .cons k j r, es, fs, h, hw => by
+    simp only [ofJKvs] at h
+    split at h
+    · rename_i e es' h1 h2
+      injection h with h; subst h
+      simp only [jWtFields, Bool.and_eq_true] at hw
+      simp [fixFields, wtFields, hw.1.1, wt_fix_ofJ j e _ _ _ h1 hw.1.2, wtFields_fix_ofJKvs r es' fs h2 hw.2]
+    · cases h
+end
+
 end Martian.Invocation
